@@ -195,6 +195,13 @@ Theorem C09_mappings : forall g c nq,
     injinto (length g) (imap d) /\ injinto (length g) (fmap d).
 Proof. exact pipeline_mappings. Qed.
 
+(* `placement_connected g P1 = Some true` above means: P1 is a duplicate-free, CONNECTED set of
+   machine qudits (textbook definition), for every well-formed symmetric loop-free machine graph *)
+Theorem C09_placement_connected_meaning : forall g pl,
+  wf g -> sym g -> loopfree g -> placement_connected g pl = Some true ->
+  NoDup pl /\ pl <> [] /\ (forall q, In q pl -> q < length g) /\ connected_set g pl.
+Proof. exact placement_connected_meaning. Qed.
+
 (* ... and in semantic form, on the machine: the output circuit equals the input with
    logical qudit l entering on physical qudit initial_mapping[l], followed by a swap
    network; pushing initial_mapping through that network gives final_mapping. *)
